@@ -195,6 +195,23 @@ def main():
                 raise core.HarnessError('\n'.join(errs))
         finally:
             shutil.rmtree(work, ignore_errors=True)
+    fz = getattr(mod, 'FUZZ_SECONDS', 0)
+    if tier == 'thorough' and fz and not run.violations:
+        # coverage-guided campaign (libFuzzer via atheris) over the same strategy and oracle; see tools/fuzz.py
+        import re
+        r = subprocess.run([sys.executable, os.path.join(HERE, 'tools', 'fuzz.py'), prop, '--seconds', str(fz)], capture_output=True, text=True)
+        text = r.stdout + r.stderr
+        m = re.search(r'Done (\d+) runs', text) or re.search(r'number_of_executed_units: (\d+)', text)
+        if r.returncode == 1 and 'VIOLATION' in text:
+            vl = [l for l in text.splitlines() if l.startswith('VIOLATION')][0]
+            path = vl.split('replay=')[-1].strip()
+            sig = ([l.split('discrepancy:')[1].strip() for l in text.splitlines() if 'discrepancy:' in l] or ['fuzz'])[0]
+            run.violations.append((sig, '(found by the coverage-guided campaign)\n' + text[-1500:], None, path))
+        elif r.returncode == 0 or m:
+            run.extra['coverage_guided_executions'] = int(m.group(1)) if m else 0
+            run.evaluations += int(m.group(1)) if m else 0
+        else:
+            run.inconclusive['coverage_guided_campaign_unavailable'] += 1
     req = getattr(mod, 'REQUIRED_CLASSES', None)
     if req and not run.violations:
         run.require_classes(req)
